@@ -420,8 +420,15 @@ func (t *T) run(st rpc.Stream, codec string) error {
 		return finish(errs[0], "")
 	}
 	down := uint32(0)
+	var reuse Box
+	if rec.Serial%2 == 1 && !t.L.Retain {
+		reuse = NewBox(codec) // a handler that reads every message into one variable
+	}
 	for nr := 0; ; nr++ {
-		box := NewBox(codec)
+		box := reuse
+		if box == nil {
+			box = NewBox(codec)
+		}
 		// handlers, too, pass buffers of their own of varying capacity
 		var ubuf []byte
 		if c := []int{-1, 0, 24, 512, 66000}[(int(rec.Serial)+nr)%5]; c >= 0 {
